@@ -86,6 +86,10 @@ L_pools(ev) == {ev.conns[i] : i \in DOMAIN ev.conns} = DOMAIN objAt             
 T_srvdrops(ev) == \A a \in DOMAIN objAt : ev.now - Get(lastAny, a, ev.now) <= P.conn_timeout + 2 * P.tick + Slack
 \* C12: the client reports DROPPED once 5 s have passed without an accepted server datagram
 T_clidrops(ev) == \A c \in DOMAIN cstate : cstate[c].status = 2 => ev.now - cstate[c].lastRx <= 50000 + 2 * P.tick + Slack
+\* (an application that polls its client less often than once per server tick can emit no more often than it polls: Frame is the longer of the two)
+Frame(c) == IF cstate[c].period > P.tick THEN cstate[c].period ELSE P.tick
+\* C12: ... measured from the moment the PEER fell silent, not from the moment the application got round to reading what had piled up before
+T_clisilent(ev) == \A c \in DOMAIN cstate : (cstate[c].status = 2 /\ cstate[c].cut >= 0) => ev.now - cstate[c].cut <= 50000 + 2 * Frame(c) + 2 * P.tick + Slack
 \* C12: the server emits to every connected client at least once per keep-alive interval plus one tick
 T_srvcadence(ev) == \A a \in DOMAIN objAt : ev.now - Get(lastTx, a, ev.now) <= P.keepalive + 2 * P.tick + Slack
 \* C12: an unanswered connect attempt ends DISCONNECTED once the configured time-out has passed - whether or not a callback was given
@@ -95,8 +99,8 @@ A_echo(ev) == \A o \in open : ev.now - o[3] <= P.echo_deadline
 \* C12: a connection that never completes the handshake leaves the temporary pool after temp_connection_timeout
 T_tempdrop(ev) == \A a \in DOMAIN tempSince : a \in {ev.temps[i] : i \in DOMAIN ev.temps} => ev.now - tempSince[a] <= P.temp_timeout + 2 * P.tick + Slack
 \* C12: a connected client emits at least once per keep-alive interval (its own setting) plus one tick
-T_clicadence(ev) == \A c \in DOMAIN cstate : (cstate[c].status = 2 /\ c \in DOMAIN lastCsend /\ ev.now - cstate[c].since > cstate[c].ka + 2 * P.tick) =>
-                       ev.now - lastCsend[c] <= cstate[c].ka + 2 * P.tick + Slack
+T_clicadence(ev) == \A c \in DOMAIN cstate : (cstate[c].status = 2 /\ c \in DOMAIN lastCsend /\ ev.now - cstate[c].since > cstate[c].ka + 2 * Frame(c)) =>
+                       ev.now - lastCsend[c] <= cstate[c].ka + 2 * Frame(c) + Slack
 \* C12: setters never raise
 T_setter(ev) == ev.err = ""
 \* C12: a send that is never acknowledged reports failure after the configured message time-out (and not before)
@@ -125,9 +129,9 @@ RawClauses ==
          ~CASE c = "L_thread" -> L_thread(ev) [] c = "L_token" -> L_token(ev) [] c = "L_connect" -> L_connect(ev) [] c = "L_msg" -> L_msg(ev) [] c = "L_once" -> L_once(ev) [] c = "L_disc" -> L_disc(ev)
             [] c = "L_aftershutdown" -> L_aftershutdown(ev) [] c = "T_srvdrop" -> T_srvdrop(ev)}
     ELSE IF ev.ev = "tick" THEN
-      {c \in {"A_alive", "L_pools", "T_srvdrops", "T_srvcadence", "T_clidrops", "A_echo", "T_tempdrop", "T_clicadence", "T_connfails"} :
+      {c \in {"A_alive", "L_pools", "T_srvdrops", "T_srvcadence", "T_clidrops", "T_clisilent", "A_echo", "T_tempdrop", "T_clicadence", "T_connfails"} :
          ~CASE c = "A_alive" -> A_alive(ev) [] c = "L_pools" -> L_pools(ev) [] c = "T_srvdrops" -> T_srvdrops(ev) [] c = "T_srvcadence" -> T_srvcadence(ev)
-            [] c = "T_clidrops" -> T_clidrops(ev) [] c = "A_echo" -> A_echo(ev) [] c = "T_tempdrop" -> T_tempdrop(ev) [] c = "T_clicadence" -> T_clicadence(ev) [] c = "T_connfails" -> T_connfails(ev)}
+            [] c = "T_clidrops" -> T_clidrops(ev) [] c = "T_clisilent" -> T_clisilent(ev) [] c = "A_echo" -> A_echo(ev) [] c = "T_tempdrop" -> T_tempdrop(ev) [] c = "T_clicadence" -> T_clicadence(ev) [] c = "T_connfails" -> T_connfails(ev)}
     ELSE IF ev.ev = "csend" THEN (IF A_clisealed(ev) THEN {} ELSE {"A_clisealed"})
     ELSE IF ev.ev = "cset" THEN (IF T_setter(ev) THEN {} ELSE {"T_setter"})
     ELSE IF ev.ev = "ccb" THEN (IF T_msgtimeout(ev) THEN {} ELSE {"T_msgtimeout"})
@@ -176,14 +180,17 @@ Upd ==
         ELSE UNCHANGED <<phase, objAt, tokens, everConn, lastTx, proved, lastHeard, lastAny, sess, known>>
      /\ UNCHANGED <<bin, bout, stopAt, cstate, open, tempSince, lastCsend>>
   ELSE IF ev.ev = "cstat" THEN
-     /\ cstate' = Put(cstate, ev.c, [Get(cstate, ev.c, [status |-> 0, since |-> ev.now, lastRx |-> ev.now, hello |-> ev.now, gotHello |-> FALSE, connTimeout |-> 0, hascb |-> FALSE, ka |-> 1000, mt |-> 10000])
+     /\ cstate' = Put(cstate, ev.c, [Get(cstate, ev.c, [status |-> 0, since |-> ev.now, lastRx |-> ev.now, hello |-> ev.now, gotHello |-> FALSE, connTimeout |-> 0, hascb |-> FALSE, ka |-> 1000, mt |-> 10000, cut |-> -1, period |-> 0])
                                        EXCEPT !.status = ev.status, !.since = ev.now])
      /\ UNCHANGED <<phase, objAt, tokens, thread, proved, lastHeard, lastAny, sess, known, lastTx, bin, bout, everConn, stopAt, shutdownSeen, open, tempSince, lastCsend>>
   ELSE IF ev.ev = "cnew" THEN
-     /\ cstate' = Put(cstate, ev.c, [status |-> 1, since |-> ev.now, lastRx |-> ev.now, hello |-> ev.now, gotHello |-> FALSE, connTimeout |-> ev.connTimeout, hascb |-> ev.hascb = 1, ka |-> ev.ka, mt |-> ev.mt])
+     /\ cstate' = Put(cstate, ev.c, [status |-> 1, since |-> ev.now, lastRx |-> ev.now, hello |-> ev.now, gotHello |-> FALSE, connTimeout |-> ev.connTimeout, hascb |-> ev.hascb = 1, ka |-> ev.ka, mt |-> ev.mt, cut |-> -1, period |-> ev.period])
      /\ UNCHANGED <<phase, objAt, tokens, thread, proved, lastHeard, lastAny, sess, known, lastTx, bin, bout, everConn, stopAt, shutdownSeen, open, tempSince, lastCsend>>
   ELSE IF ev.ev = "crx" THEN
      /\ cstate' = IF ev.c \in DOMAIN cstate /\ ev.acc > 0 THEN Put(cstate, ev.c, [cstate[ev.c] EXCEPT !.lastRx = ev.now, !.gotHello = TRUE]) ELSE cstate
+     /\ UNCHANGED <<phase, objAt, tokens, thread, proved, lastHeard, lastAny, sess, known, lastTx, bin, bout, everConn, stopAt, shutdownSeen, open, tempSince, lastCsend>>
+  ELSE IF ev.ev = "ccut" THEN          \* the environment silences the link towards this client from now on (nothing the server sends will reach it)
+     /\ cstate' = IF ev.c \in DOMAIN cstate THEN Put(cstate, ev.c, [cstate[ev.c] EXCEPT !.cut = ev.now]) ELSE cstate
      /\ UNCHANGED <<phase, objAt, tokens, thread, proved, lastHeard, lastAny, sess, known, lastTx, bin, bout, everConn, stopAt, shutdownSeen, open, tempSince, lastCsend>>
   ELSE IF ev.ev = "cgone" THEN
      /\ cstate' = Del(cstate, ev.c) /\ open' = {o \in open : o[1] # ev.c} /\ lastCsend' = Del(lastCsend, ev.c)
